@@ -51,7 +51,7 @@ def check(ctx: Ctx) -> None:
             v = r.ast.value
             ok = None
             if isinstance(v, ast.Call) and any(t.name == "stop" for t in ctx.an.scope(f).callee(v).targets) and len(v.args) == 1:
-                txt = ast.unparse(v.args[0]).replace(" ", "")
+                txt = ctx.vals.canon(f, v.args[0]).replace(" ", "")
                 ok = txt in ("self.num_running", "len(self._tasks_running)")
             rep.ob("R14.1", "stop_all() == stop(number of running tasks)", ok, node=r)
     rep.rule("R14.2", "premise of 'reversed(running) is newest first': the running registry keeps creation order - entries are inserted only by _start_task "
@@ -71,6 +71,10 @@ def check(ctx: Ctx) -> None:
     K.r_two_phase(ctx, "R06.1")
     K.r_who_cancel(ctx, "R06.3")
     S.r_handoff(ctx, "R02.1")
+
+
+def is_len_of(e: ast.AST, name: str) -> bool:
+    return isinstance(e, ast.Call) and isinstance(e.func, ast.Name) and e.func.id == "len" and len(e.args) == 1 and isinstance(e.args[0], ast.Name) and e.args[0].id == name
 
 
 def prefix_idiom(ctx: Ctx, f, lst: str, nump: str):
@@ -116,22 +120,34 @@ def prefix_idiom(ctx: Ctx, f, lst: str, nump: str):
         if not isinstance(lp, ast.For):
             return None, "not a for loop"
         it = lp.iter
-        if not (isinstance(it, ast.Call) and isinstance(it.func, ast.Name) and it.func.id == "enumerate" and len(it.args) == 1 and not it.keywords):
+        enumerated = isinstance(it, ast.Call) and isinstance(it.func, ast.Name) and it.func.id == "enumerate" and len(it.args) == 1 and not it.keywords
+        if not enumerated:
             if isinstance(lp.target, ast.Name):
                 ev = lp.target.id
                 for t in ctx.nodes(f, lambda n: n.op == "test" and n.loops and n.loops[-1] is lp):
                     if any(isinstance(x, ast.Name) and x.id == ev for x in ast.walk(t.ast)):
                         return False, (f"the selection depends on the value of the id (`{ast.unparse(t.ast)}`); running ids have gaps after tasks end or are cancelled by id, "
                                        "only the number of ids collected may bound the loop")
-            return None, "the loop does not count with enumerate(...)"
-        rv = reversed_running(it.args[0])
+            # idiom 1b: the number collected so far is len(<list>)
+            counts_len = isinstance(lp.target, ast.Name) and any(
+                isinstance(t.ast, ast.Compare) and is_len_of(t.ast.left, lst) for t in ctx.nodes(f, lambda n: n.op == "test" and n.loops and n.loops[-1] is lp))
+            if not counts_len:
+                return None, "the loop does not count with enumerate(...) or len(<id list>)"
+        src = it.args[0] if enumerated else it
+        rv = reversed_running(src)
         if rv is None:
-            return None, f"cannot classify the source {ast.unparse(it.args[0])}"
+            return None, f"cannot classify the source {ast.unparse(src)}"
         if rv is False:
-            return False, f"the ids are drawn from {ast.unparse(it.args[0])}, not from the reversed running registry (not LIFO)"
-        if not (isinstance(lp.target, ast.Tuple) and len(lp.target.elts) == 2 and all(isinstance(x, ast.Name) for x in lp.target.elts)):
-            return None, "unexpected loop target"
-        ivar, idvar = lp.target.elts[0].id, lp.target.elts[1].id
+            return False, f"the ids are drawn from {ast.unparse(src)}, not from the reversed running registry (not LIFO)"
+        if enumerated:
+            if not (isinstance(lp.target, ast.Tuple) and len(lp.target.elts) == 2 and all(isinstance(x, ast.Name) for x in lp.target.elts)):
+                return None, "unexpected loop target"
+            ivar, idvar = lp.target.elts[0].id, lp.target.elts[1].id
+        else:
+            ivar, idvar = None, lp.target.id
+
+        def is_counter(e: ast.AST) -> bool:
+            return (isinstance(e, ast.Name) and e.id == ivar) if enumerated else is_len_of(e, lst)
         arg = a.ast.args[0] if a.ast.args else None
         if not (isinstance(arg, ast.Name) and arg.id == idvar):
             return False, "the value appended is not the id drawn in this iteration"
@@ -141,7 +157,7 @@ def prefix_idiom(ctx: Ctx, f, lst: str, nump: str):
         good = None
         for t in tests:
             c = t.ast
-            if len(c.ops) == 1 and isinstance(c.left, ast.Name) and c.left.id == ivar and isinstance(c.comparators[0], ast.Name) and c.comparators[0].id == nump:
+            if len(c.ops) == 1 and is_counter(c.left) and isinstance(c.comparators[0], ast.Name) and c.comparators[0].id == nump:
                 if isinstance(c.ops[0], ast.GtE):
                     leaves = [s for s, lab in t.succ if lab[0] == "T"]
                     # the true branch must leave the loop without appending
